@@ -6,7 +6,7 @@
    (as the 32-bit word -errno followed by any payload). *)
 From Coq Require Import List NArith ZArith Bool.
 Import ListNotations.
-Require Import Mach AuditConsts MsgTypes AuditClient ClientProofs ChkClient ClientAckProofs.
+Require Import Mach AuditConsts MsgTypes AuditClient ClientProofs ChkClient ClientAckProofs ClientSpecProofs.
 Open Scope N_scope.
 
 (* getReply finds the message addressed to its request through all admissible noise *)
@@ -82,7 +82,34 @@ Theorem C08_rule_cmd_nil_only_if_acked : forall s w ty data s' w' ws, ack_cmd s 
   acked0_somewhere ((nseq s + 1) mod 2^32) (rscript w) = true.
 Proof. exact ack_cmd_nil_only_if_acked. Qed.
 
+(* the checker's independent reading of the script (spec_next, written from the property's fault model) agrees with the
+   model's getReply wherever it commits itself: a reply found is the reply getReply returns, a foreign one is ESeq *)
+Theorem C08_spec_reading_is_get_reply : forall q script,
+  match spec_next q script 0 with
+  | SMsg ty d rest => reply q script = (inr (ty, q, d), rest)
+  | SForeign => exists r, reply q script = (inl ESeq, r)
+  | SOut => True
+  end.
+Proof. exact spec_reply. Qed.
+
+(* the C08 clause the judge applies to the implementation accepts the model's answer on EVERY kernel script: Set* in
+   WaitForReply mode, DeleteRule, AddRule - the errno decides inside the fault model, a foreign reply fails, and outside
+   the fault model success needs an acknowledgement *)
+Theorem C08_checker_accepts_set : forall s w k v, no_fault w ->
+  chk_c08_call (OSet k v true) (next_seq s) (rscript w) (result_of (snd (cstep s w (OSet k v true)))) = true.
+Proof. exact chk_c08_accepts_set. Qed.
+Theorem C08_checker_accepts_delete_rule : forall s w d, no_fault w ->
+  chk_c08_call (ODeleteRule d) (next_seq s) (rscript w) (result_of (snd (cstep s w (ODeleteRule d)))) = true.
+Proof. exact chk_c08_accepts_delete_rule. Qed.
+Theorem C08_checker_accepts_add_rule : forall s w d, no_fault w ->
+  chk_c08_call (OAddRule d) (next_seq s) (rscript w) (result_of (snd (cstep s w (OAddRule d)))) = true.
+Proof. exact chk_c08_accepts_add_rule. Qed.
+
 Print Assumptions C08_reply_found.
+Print Assumptions C08_spec_reading_is_get_reply.
+Print Assumptions C08_checker_accepts_set.
+Print Assumptions C08_checker_accepts_delete_rule.
+Print Assumptions C08_checker_accepts_add_rule.
 Print Assumptions C08_success_only_if_acked.
 Print Assumptions C08_set_nil_only_if_acked.
 Print Assumptions C08_rule_cmd_nil_only_if_acked.
